@@ -307,23 +307,27 @@ Definition chain_reducer_fit : list gev :=
     ev [] (AChk (VCheckWl WWindow));
     ev [] (AMut (A_fitted true)) ].
 
+(* Order of the events in the chains below: source order, except that events whose path conditions
+   exclude each other (two branches of an if / else, a guard clause and the code after it) are listed
+   in the extractor's canonical order (guard-holds branch first) - their relative order is not
+   observable, since at most one of them happens in a run. *)
 (* sktime/forecasting/compose/_reduce.py : _DirectReducer._fit
    (self._transform and _sliding_window_transform followed) *)
 Definition chain_direct_fit : list gev :=
   [ ev [] (AChk VFhKnown);
-    ev [(GFhOos, false)] (AChk VRaise);
     ev [(GFhOos, true)] (AChk VFhKnown);
     ev [(GFhOos, true)] (AChk (VCheckWl WWindow));
     ev [(GFhOos, true); (GReduceTooShort, true)] (AChk VRaise);
-    ev [(GFhOos, true); (GReduceTooShort, false)] (AChk VFhKnown) ].
+    ev [(GFhOos, true); (GReduceTooShort, false)] (AChk VFhKnown);
+    ev [(GFhOos, false)] (AChk VRaise) ].
 
 (* sktime/forecasting/compose/_reduce.py : _MultioutputReducer._fit *)
 Definition chain_multioutput_fit : list gev :=
   [ ev [] (AChk VFhKnown);
-    ev [(GFhOos, false)] (AChk VRaise);
     ev [(GFhOos, true)] (AChk VFhKnown);
     ev [(GFhOos, true)] (AChk (VCheckWl WWindow));
-    ev [(GFhOos, true); (GReduceTooShort, true)] (AChk VRaise) ].
+    ev [(GFhOos, true); (GReduceTooShort, true)] (AChk VRaise);
+    ev [(GFhOos, false)] (AChk VRaise) ].
 
 (* sktime/forecasting/compose/_reduce.py : _sliding_window_transform *)
 Definition chain_sliding_window_transform : list gev :=
@@ -426,15 +430,15 @@ Definition chain_window_split : list gev :=
     ev [] (AChk (VCheckFh FhSelf true));
     ev [(GWlTooLong, true)] (AChk VRaise);
     ev [(GWlTooLong, false); (GIwGiven, true); (GIwTooLong, true)] (AChk VRaise);
-    ev [(GWlTooLong, false); (GIwGiven, true); (GSww, false)] (AChk VRaise);
-    ev [(GWlTooLong, false); (GIwGiven, true); (GSww, true); (GIwLeWl, true)] (AChk VRaise) ].
+    ev [(GWlTooLong, false); (GIwGiven, true); (GSww, true); (GIwLeWl, true)] (AChk VRaise);
+    ev [(GWlTooLong, false); (GIwGiven, true); (GSww, false)] (AChk VRaise) ].
 
 (* sktime/forecasting/model_selection/_split.py : BaseWindowSplitter.get_cutoffs *)
 Definition chain_window_cutoffs : list gev :=
-  [ ev [(GYGiven, false)] (AChk VRaise);
-    ev [(GYGiven, true)] (AChk VTimeIndex);
+  [ ev [(GYGiven, true)] (AChk VTimeIndex);
     ev [(GYGiven, true)] (AChk (VCheckFh FhSelf true));
-    ev [(GYGiven, true)] (AChk VCheckStep) ].
+    ev [(GYGiven, true)] (AChk VCheckStep);
+    ev [(GYGiven, false)] (AChk VRaise) ].
 
 (* sktime/forecasting/model_selection/_split.py : SingleWindowSplitter._split *)
 Definition chain_single_split : list gev :=
